@@ -48,7 +48,7 @@ def run_program_case(case, prop: str, focus_kinds=None):
             if entry == "env" and d.name not in m.w.env_of:
                 entry = "state"
             try:
-                m.do_invalid(dict(k="invalid", fault="use_destroyed", entry=entry, targets=[d.name], mode=mode, seed=i))
+                m.step(dict(k="invalid", fault="use_destroyed", entry=entry, targets=[d.name], mode=mode, seed=i))
                 labels.append("use-of-destroyed-rejected:" + st["k"])
             except Inapplicable:
                 labels.append("skipped:" + str(d)[:30])
